@@ -442,9 +442,11 @@ def rule_mask_names(check, model, rules):
                         g[('has', proto.kind_at(b[1]))] = pol
                     elif t[0] == 'M' and t[1] == el and t[2] == 'isidentifier':
                         # a name that cannot be the name of a parameter is absorbed without a parameter to display it
+                        g['name_identifier'] = pol
                         if not pol:
                             g['in_input_parameters'] = True
                     elif t[0] == 'C' and isinstance(t[1], str) and t[1].endswith('iskeyword') and t[2] and t[2][0] == el:
+                        g['name_keyword'] = pol
                         if pol:
                             g['in_input_parameters'] = True
                     elif t[0] == 'C' and t[1] == 'any' and mentions(t, el):
@@ -598,6 +600,11 @@ def rule_mask_names(check, model, rules):
                             news = [e for e in kwo_puts if e.op == 'setitem' and e.args[0] == el]
                             if not news:
                                 add('table', 'row "absorbed by **kwargs, partial": no keyword-only parameter is created for the bound keyword')
+                            elif g.get('name_identifier') is not True or g.get('name_keyword') is not False:
+                                # (D38b) any string can be a key of a partial's keywords: `partial(tag, **{'class': 'row'})`
+                                add('table', 'row "absorbed by **kwargs, partial": a keyword-only parameter is created without testing that the name can be '
+                                             'the name of a parameter (an identifier that is not a reserved word): inspect.Parameter raises ValueError for '
+                                             'a partial object that is callable')
                             elif g.get('in_input_parameters') is None:
                                 add('table', 'row "absorbed by **kwargs, partial": a keyword-only parameter is created without testing that the input '
                                              'has no parameter of that name (a positional-only or star parameter): the result has two parameters of one '
@@ -1502,3 +1509,46 @@ def rule_remove_helper_contract(check, model, rule):
             else:
                 check.holds(rule, st, '%s hands %s to a helper that works on %s' % (norm(e.node)[:50], gives, wants), key=key)
     check.floor(rule, 'calls of _remove_from_src in _mask', n, 2)
+
+
+def rule_reserved_names_complete(check, model, rule):
+    """(D38/D58b) the names under which a keyword absorbed by **kwargs must *not* be displayed are those of the parameters that no keyword
+    can reach and that stay in the result: what is left of the positional-only bucket, and both star parameters.  The set the test is made
+    against is built from all three, before the loop over the names (its content must not depend on their order)."""
+    proto = model.proto
+    iPO, iVP, iVK = proto.index_of_kind('PO'), proto.index_of_kind('VP'), proto.index_of_kind('VK')
+    found = None
+    for p in model.paths:
+        for e, g in walk_effects(p.effects):
+            if e.kind == 'loop':
+                for sp in e.sub:
+                    for atom, pol in sp.lits:
+                        if atom[0] == 'in' and _container_role(model, atom[2], {}) == 'in_reserved':
+                            found = (p, atom[2])
+        if found:
+            break
+    key = 'reserved-names|complete'
+    st = '%s %s' % (model.fi.loc(), model.fi.key)
+    if found is None:
+        check.holds(rule, st, 'no reserved-name set in _mask (the display parameter is guarded otherwise: see the per-name table)', key=key, nontrivial=False)
+        return
+    p, rset = found
+    init = model.interp.obj_init.get(rset)
+    mentioned = set()
+    terms = [init] if init is not None else []
+    for e, g in walk_effects(p.effects):
+        if e.kind == 'mut' and e.target == rset and e.op in ('update', 'add', 'ior') and e.args:
+            terms.extend(e.args)
+    for t in terms:
+        for s_ in subterms(t):
+            b = model.sides.bucket(s_)
+            if b is not None and b[0] == 'sig':
+                mentioned.add(b[1])
+    missing = [proto.kind_at(i) for i in (iPO, iVP, iVK) if i not in mentioned]
+    if missing:
+        check.violation(rule, st, 'the set of names a partial keyword absorbed by **kwargs cannot be displayed under leaves out the %s parameter(s): '
+                        'a keyword of that name gets a display parameter next to the parameter of the same name, and building the signature raises '
+                        'ValueError for a valid partial object' % '/'.join(missing), key=key,
+                        witness="def f(*args, **kwargs): ...; signatures.signature(functools.partial(f, args=1))")
+    else:
+        check.holds(rule, st, 'the reserved names cover what is left of the positional-only parameters and both star parameters', key=key)
